@@ -457,7 +457,7 @@ struct H
       const int64_t id = ToI(t[1]); if ((id < 0)||(id > kMaxId)||(Get(id))) return;
       if ((size_t) id >= nodes.size()) nodes.resize((size_t) id+1, (Node *) NULL);
       Node * x = new Node(this, (int) id); nodes[(size_t)id] = x;
-      Node * y = (t.size() >= 3) ? Get(ToI(t[2])) : NULL;
+      Node * y = (t.size() >= 3) ? Get(ToI(t[2])) : NULL; if (y == x) y = NULL;
       th.u((uint64_t) id); th.u(y ? (uint64_t) y->_id : (uint64_t) 999);
       if (g_verbose) fprintf(stderr, "   new node %d under %d\n", x->_id, y ? y->_id : -1);
       if (y) {x->_mparent = y->_id; y->PutPulseChild(x);}
@@ -490,7 +490,7 @@ struct H
            if (!inSweep)                    Note("pulsed_early", Desc(n) + " had Pulse() called while the manager was not pulsing");
       else if (rt < 0)                      Note("detached_node_pulsed", Desc(n) + " is not attached to the managed tree but its Pulse() ran at " + U(callTime));
       else if (n->_pulsedSweep == sweepNo)  Note("pulsed_twice", Desc(n) + " had Pulse() called twice in the sweep at " + U(curT));
-      else if (!n->_valid)                  Note("pulsed_early", Desc(n) + " had Pulse() called at " + U(callTime) + " (scheduled-time argument " + TimeStr(schedTime) + ")");
+      else if (!n->_valid)                  Note("pulsed_early", Desc(n) + " had Pulse() called at " + U(callTime) + " although it has no requested time in force (scheduled-time argument " + TimeStr(schedTime) + ")");
       else if (n->_reported > curT)         Note("pulsed_early", Desc(n) + " had Pulse() called at " + U(curT) + ", " + ((n->_reported == kNever) ? std::string("never asked for") : U(n->_reported-curT) + " us early"));
       else if (schedTime != n->_reported)   Note("wrong_scheduled_time", Desc(n) + " got GetScheduledTime()=" + TimeStr(schedTime) + " in its Pulse() at " + U(curT));
       else if (callTime != curT)            Note("wrong_scheduled_time", Desc(n) + " got GetCallbackTime()=" + U(callTime) + " but the manager pulsed at " + U(curT));
@@ -570,6 +570,7 @@ struct H
    }
    void OpWake(int64_t delta)
    {
+      const int64_t kMaxDelta = (int64_t) 1 << 60; if (delta > kMaxDelta) delta = kMaxDelta; if (delta < -kMaxDelta) delta = -kMaxDelta;
       const uint64_t next = Recalc();
       const uint64_t before = g_simNowUs, mag = (uint64_t)((delta < 0) ? -delta : delta);
       const bool finite = (next != kNever)&&(next < kClockCap);
